@@ -1867,6 +1867,17 @@ package engine
 //@   pure
 //@   deterministic
 
+//@ -- retract/1: one alternative per clause of the procedure as it is when retract is called (the snapshot of the logical
+//@ -- update view), in the order of the clauses (first match first); an alternative selects its clause by unifying the
+//@ -- argument with the clause's stored term and then deletes that very clause (Retract$1$1)
+//@ -- (the contract of Retract itself is in verif_sweep.go, next to its C05 clauses)
+
+//@ func Retract$1
+//@   property C09
+//@   nosafety
+//@   requires u != nil && k != nil
+//@   at-call Unify requires[the-clause-is-selected-by-unifying-the-argument-with-its-stored-term] a0 == vm && ((a1 == t && a2 == raw) || (a1 == raw && a2 == t)) && a4 == env
+
 //@ func Retract$1$1
 //@   property C09 C05
 //@   safety own
@@ -1875,6 +1886,16 @@ package engine
 //@   loop 1 invariant len(u.clauses) == old(len(u.clauses)) && backing(u.clauses) == old(backing(u.clauses)) && offset(u.clauses) == old(offset(u.clauses))
 //@   at-call append requires[deletes-the-very-clause] len(a0) < old(len(u.clauses)) && id(old(u.clauses[now(len(a0))].raw)) == id(c.raw)
 //@   onk[at-most-one-clause-goes] len(u.clauses) == old(len(u.clauses)) || len(u.clauses) == old(len(u.clauses)) - 1
+//@   bind cut = append#1
+//@   at-call append requires[keeps-every-clause-before-it] forall m int :: 0 <= m && m < len(a0) ==> a0[m].raw == old(u.clauses[m].raw) && a0[m].bytecode == old(u.clauses[m].bytecode)
+//@   at-call append requires[closes-the-gap-with-every-clause-after-it-in-order] len(a1) == old(len(u.clauses)) - len(a0) - 1 &&
+//@       forall m int :: 0 <= m && m < len(a1) ==> a1[m].raw == old(u.clauses[now(len(a0)) + 1 + m].raw) && a1[m].bytecode == old(u.clauses[now(len(a0)) + 1 + m].bytecode)
+//@   onk[nothing-goes-when-the-clause-is-no-longer-there] !called(cut) ==> len(u.clauses) == old(len(u.clauses)) &&
+//@       forall m int :: 0 <= m && m < len(u.clauses) ==> u.clauses[m].raw == old(u.clauses[m].raw) && u.clauses[m].bytecode == old(u.clauses[m].bytecode)
+//@   onk[the-clauses-before-it-keep-their-place] called(cut) ==> forall m int :: 0 <= m && m < len(argof(cut, 0)) ==> u.clauses[m].raw == old(u.clauses[m].raw) && u.clauses[m].bytecode == old(u.clauses[m].bytecode)
+//@   onk[the-clauses-after-it-move-up-in-order] called(cut) ==> len(u.clauses) == old(len(u.clauses)) - 1 &&
+//@       forall m int :: len(argof(cut, 0)) <= m && m < len(u.clauses) ==> u.clauses[m].raw == old(u.clauses[m + 1].raw) && u.clauses[m].bytecode == old(u.clauses[m + 1].bytecode)
+//@   onk[continues-under-the-bindings-of-the-unification] kenv == param(0)
 
 //@ func piArg
 //@   trusted
@@ -1894,6 +1915,30 @@ package engine
 //@   ensures[new-clauses-come-first-in-order] forall j int :: 0 <= j && j < len(new) ==> result[j].raw == old(new[j].raw) && result[j].bytecode == old(new[j].bytecode)
 //@   ensures[existing-clauses-follow-in-order] forall j int :: 0 <= j && j < len(existing) ==> result[len(new) + j].raw == old(existing[j].raw) && result[len(new) + j].bytecode == old(existing[j].bytecode)
 
+//@ -- assertz/1, asserta/1: the clause is stored first (assertMerge with the merge function below), then the caller goes on
+//@ func Assertz
+//@   property C09
+//@   nosafety
+//@   requires vm != nil
+//@   bind merr = assertMerge#1
+//@   at-call assertMerge requires[the-clause-given-is-stored-as-read-under-the-caller-s-bindings] a0 == vm && (a1 == t || a1 == resolve(env, t)) && a3 == env
+//@   onk[succeeds-only-after-the-clause-was-stored] called(merr) && merr == nil
+//@   onk[continues-in-the-caller-s-environment] kenv == env
+//@   nok[fails-only-when-the-clause-was-not-stored] called(merr) && merr != nil
+
+//@ func Asserta
+//@   property C09
+//@   nosafety
+//@   requires vm != nil
+//@   bind merr = assertMerge#1
+//@   at-call assertMerge requires[the-clause-given-is-stored-as-read-under-the-caller-s-bindings] a0 == vm && (a1 == t || a1 == resolve(env, t)) && a3 == env
+//@   onk[succeeds-only-after-the-clause-was-stored] called(merr) && merr == nil
+//@   onk[continues-in-the-caller-s-environment] kenv == env
+//@   nok[fails-only-when-the-clause-was-not-stored] called(merr) && merr != nil
+
+//@ -- the predicate a clause is filed under: that of the head of a rule (H :- B), that of the clause itself otherwise
+//@ spec fun filedUnder(c procedureIndicator, h procedureIndicator) procedureIndicator = ite(c.name == atomIf && c.arity == 2, h, c)
+
 //@ func assertMerge
 //@   property C09
 //@   requires vm != nil && merge != nil
@@ -1901,9 +1946,34 @@ package engine
 //@   bind added, cerr = compile#1
 //@   assume-call preserves vm.procedures
 //@   at-call dynamic#2 requires[merges-the-stored-clauses-with-the-compiled-ones] a1 == added && cerr == nil
+//@   bind hpi, harg, herr = piArg#1
+//@   bind rpi, rarg, rerr = piArg#2
+//@   at-call piArg#1 requires[the-predicate-is-read-off-the-clause-given] (a0 == t || a0 == resolve(env, t)) && a1 == env
+//@   at-call dynamic#1 requires[a-rule-is-filed-under-the-predicate-of-its-head] a0 == 0
+//@   at-call compile requires[the-clause-given-is-the-clause-compiled] (a0 == t || a0 == resolve(env, t)) && a1 == env
+//@   at-call dynamic#2 requires[merges-into-the-clauses-stored-under-the-predicate-of-the-head] has(vm.procedures, filedUnder(hpi, rpi)) && vm.procedures[filedUnder(hpi, rpi)] is *userDefined &&
+//@       a0 == (vm.procedures[filedUnder(hpi, rpi)] as *userDefined).clauses
+//@   at-call dynamic#2 requires[only-a-dynamic-procedure-is-modified] (vm.procedures[filedUnder(hpi, rpi)] as *userDefined).dynamic
+//@   at-store userDefined.clauses requires[the-merged-list-becomes-the-clauses-of-that-procedure] target == (vm.procedures[filedUnder(hpi, rpi)] as *userDefined)
+//@   ensures[the-procedure-exists-afterwards] result == nil ==> has(vm.procedures, filedUnder(hpi, rpi))
 //@   ensures[a-clause-that-does-not-compile-is-an-error] called(cerr) && cerr != nil ==> result == cerr
 //@   ensures[nothing-is-stored-without-compiling] result == nil ==> called(cerr) && cerr == nil
 //@   ensures[a-failed-assert-changes-no-procedure] result != nil ==> forall q procedureIndicator :: has(vm.procedures, q) == old(has(vm.procedures, q))
+
+//@ -- abolish/1: exactly the procedure named by the argument leaves the table, and only if it is dynamic
+//@ func Abolish
+//@   property C09
+//@   nosafety
+//@   let rp = resolve(param(3), param(1))
+//@   let rn = resolve(param(3), Compound.Arg(resolve(param(3), param(1)) as Compound, 0))
+//@   let ra = resolve(param(3), Compound.Arg(resolve(param(3), param(1)) as Compound, 1))
+//@   onk[only-for-a-predicate-indicator] rp is Compound && rn is Atom && ra is Integer
+//@   onk[the-procedure-named-by-the-argument-is-gone] forall q procedureIndicator :: q.name == (rn as Atom) && q.arity == (ra as Integer) ==> !has(vm.procedures, q)
+//@   onk[every-other-procedure-stays] forall q procedureIndicator :: !(q.name == (rn as Atom) && q.arity == (ra as Integer)) ==>
+//@       has(vm.procedures, q) == old(has(vm.procedures, q)) && vm.procedures[q] == old(vm.procedures[q])
+//@   onk[only-a-dynamic-procedure-is-abolished] forall q procedureIndicator :: q.name == (rn as Atom) && q.arity == (ra as Integer) ==>
+//@       old(vm.procedures[q]) is *userDefined && old((vm.procedures[q] as *userDefined).dynamic)
+//@   onk[continues-in-the-caller-s-environment] kenv == param(3)
 
 //@ func clauses.call$1
 //@   property C03 C09
@@ -1913,6 +1983,8 @@ package engine
 //@   at-call (*VM).exec requires[runs-its-own-copy-of-the-clause] a0 == vm && a1 == c.bytecode
 //@   at-call (*VM).exec requires[in-the-call-s-environment-with-the-call-s-continuation-and-arguments] a3 == k && a4 == args && a6 == env
 //@   at-call (*VM).exec requires[cut-is-local-to-the-predicate-the-cut-parent-is-the-call-s-own-promise] a7 == p
+//@   at-call NewVariable requires[every-variable-of-the-clause-is-renamed-to-a-new-variable-made-for-this-call] local(i, int) < len(local(vars, []Variable))
+//@   at-call (*VM).exec requires[runs-with-the-variables-made-for-this-call] a2 == local(vars, []Variable)
 
 //@ func clauses.call
 //@   property C03
